@@ -40,7 +40,9 @@ def _worker(args):
             # through JSON: the case evaluated here is exactly what a replay
             # file would contain
             case = json.loads(json.dumps(prof.gen_case(seed)))
-            res = prof.evaluate(case, prop=prop)
+            # the code under test gets a private copy: whatever it does to the
+            # dictionaries it is handed must not change the recorded case
+            res = prof.evaluate(json.loads(json.dumps(case)), prop=prop)
         except HarnessError as e:
             agg['harness_errors'].append((i, 'HarnessError: %s' % e))
             continue
